@@ -15,6 +15,15 @@ def run(ctx):
     out = ctx.sub("traces")
     cuts = "whole,rand1x3" if ctx.quick else "whole,rand3x6,bounds"
     traces, ncases = h1common.run_h1srv(ctx, drv, cases, out, cuts=cuts)
+    # the same scripts over loopback TCP into a real server.Hertz with the real transports (fragmentation not controllable)
+    nets = ["netpoll"] if ctx.quick else ["netpoll", "standard"]
+    ntcp = 0
+    for kind in nets:
+        o = ctx.sub("traces_" + kind)
+        t, k = h1common.run_h1srv(ctx, drv, cases, o, idle="inloop", cuts="whole" if ctx.quick else "whole,rand2x5", extra=["-net", kind])
+        traces += t
+        ntcp += k
+    ncases += ntcp
     res = lib.validate(ctx, "H1ServerTrace", "H1ServerTrace.cfg", traces, timeout=1800)
     lib.handle_rejections(ctx, res, lambda cl: rerun(ctx, cl))
 
@@ -51,7 +60,7 @@ def run(ctx):
                 r["runs"] = [[i, a, b - 3]]; r["k"] -= 3
                 return recs
         return recs
-    big = max(traces, key=os.path.getsize)
+    big = max([t for t in traces if "/traces/" in t], key=os.path.getsize)
     lib.self_test(ctx, "H1ServerTrace", "H1ServerTrace.cfg", big, foreign_body, name="one body byte taken from another request", ncases=60)
     lib.self_test(ctx, "H1ServerTrace", "H1ServerTrace.cfg", big, swap_responses, name="two responses swapped", ncases=400)
     lib.self_test(ctx, "H1ServerTrace", "H1ServerTrace.cfg", big, drop_handle, name="second pipelined request never handled", ncases=400)
@@ -73,7 +82,7 @@ def run(ctx):
     ctx.cov.update({
         "evaluations": ncases, "distinct_nontrivial": multi * 4, "exhaustive": False,
         "traces_validated_against_impl": ncases, "samples": samples, "scripts": n, "handler_invocations": cnt["Handle"],
-        "responses": cnt["Response"], "socket_reads": cnt["Deliver"],
+        "responses": cnt["Response"], "socket_reads": cnt["Deliver"], "cases_over_real_tcp_transports": ntcp,
         "rule": "H1ServerGen (TLC) builds request scripts from Wire: every (body framing x length incl. buffer boundaries x header set x Expect) "
                 "shape alone, followed by each of 6 probe requests, preceded by a probe, and triples; each script runs in buffered and streaming "
                 "mode x in-loop and poller idle handling x fragmentations (%s) through Engine.Serve on a scripted connection; every recorded trace is "
@@ -81,4 +90,4 @@ def run(ctx):
     })
     ctx.assumptions += ["requests are well-formed by construction (Wire.Encode); body bytes are a provenance pattern mapped back to runs by the harness",
                         "responses are decoded by net/http.ReadResponse (independent implementation)",
-                        "netpoll transport not exercised: its idle handling (return to poller after each request) is emulated by the harness transport"]
+                        "real netpoll/standard transports over loopback TCP are exercised without control over fragmentation and without the consumed-offset check; exact cuts only with the in-memory transport (which emulates netpoll's return to the poller)"]
